@@ -109,21 +109,53 @@ func H_C01_update3() {
 	rhUpdateRun(k, []int{f, f, f}, []int{1, 2, 1}, 2, 1)
 }
 
-// H_C02_update2: two plugins update arbitrary targets with families f and f+1 (different fields never
+// H_C02_update2q: two plugins update arbitrary targets with families f and f+1 (different fields never
 // conflict) against a fully pre-populated runtime request; instance = kind x family.
 //verif:property C02
 //verif:instances 60
+//verif:tier quick
+//verif:expect-cover conflict-free
+func H_C02_update2q() {
+	k, i := instance()/20, instance()%20
+	rhUpdateRun(k, []int{resFams[i], resFams[(i+1)%20]}, []int{1, 1}, 2, 2)
+}
+
+// H_C02_update2sameq: two plugins, same family, disjoint keys/targets must not conflict.
+//verif:property C02
+//verif:instances 60
+//verif:tier quick
+//verif:expect-cover conflict-free
+func H_C02_update2sameq() {
+	k, f := instance()/20, resFams[instance()%20]
+	rhUpdateRun(k, []int{f, f}, []int{1, 1}, 1, 2)
+}
+
+// H_C02_update2: as update2q with <=2 items per plugin.
+//verif:property C02
+//verif:instances 60
+//verif:tier thorough
 //verif:expect-cover conflict-free
 func H_C02_update2() {
 	k, i := instance()/20, instance()%20
 	rhUpdateRun(k, []int{resFams[i], resFams[(i+1)%20]}, []int{2, 2}, 2, 2)
 }
 
-// H_C02_update2same: two plugins, same family, disjoint keys/targets must not conflict.
+// H_C02_update2same: two plugins, same family, <=2 items, disjoint keys/targets must not conflict.
 //verif:property C02
 //verif:instances 60
+//verif:tier thorough
 //verif:expect-cover conflict-free
 func H_C02_update2same() {
 	k, f := instance()/20, resFams[instance()%20]
 	rhUpdateRun(k, []int{f, f}, []int{2, 2}, 2, 2)
+}
+
+// H_C02_update3: three plugins on families f, f+1, f: third may collide with first only.
+//verif:property C02
+//verif:instances 60
+//verif:tier thorough
+//verif:expect-cover conflict-free
+func H_C02_update3() {
+	k, i := instance()/20, instance()%20
+	rhUpdateRun(k, []int{resFams[i], resFams[(i+1)%20], resFams[i]}, []int{1, 1, 1}, 2, 2)
 }
